@@ -25,12 +25,17 @@ RULE = ("streams: b64 (random byte strings of every length mod 3 vs base64.b64en
         "names (os.path.splitext / iteration names), vti (direct DomainDefinition.write_to_vti: random 2-D/3-D domains, "
         "1-5 vectors / block vectors / unclassifiable / malformed, scales, origins, file names), wvti (WriteToVTI module "
         "histories of 1-6 iterations, overwrite on/off), log (ScalarToFile histories of 1-6 calls, formats, separators, "
-        ".csv/.txt). distinct = distinct request keys whose result is a written file (or a decoded byte string)")
+        ".csv/.txt, array states in all memory layouts; the oracle reads the header labels and checks that the column labelled "
+        "tag[i, j] holds state[i, j]), log.iterorder (the model's nditer index sequence vs np.nditer). distinct = distinct request keys whose result is a written file (or a decoded byte string)")
 ASSUMPTIONS = [
     "float64 -> float32 rounding is numpy's; the expected payload is struct.pack('<f', value) per entry (no NaN, |x| <= 3e38)",
     "decimal formatting of header floats and of logged values is Python's (external); the model receives the texts",
     "little-endian host (sys.byteorder == 'little'); the big-endian branch of the model is not exercised",
-    "file names are ASCII apart from vector names (UTF-8); ScalarToFile states are C-contiguous arrays or scalars",
+    "file names are ASCII apart from vector names (UTF-8)",
+    "ScalarToFile array states come in every memory layout (C, Fortran, transposed, permuted, strided, reversed axes); the layout "
+    "(axes by decreasing |stride|, reversed axes) is computed from state.strides, checked against np.nditer for every generated "
+    "state, and sent to the model; zero strides (broadcast views) are not generated; shape and layout of a signal's state stay "
+    "fixed over the calls of one history (the header is written once, at iteration 0)",
     "a vector whose size is a multiple of BOTH nel and nnodes is written as cell data (the code tests nel first); "
     "the cell/point oracle is applied only to sizes that are a multiple of exactly one of them",
 ]
@@ -146,6 +151,12 @@ def rand_vector(rng, nel, nn, dim, kind=None):
         a = base[::2]  # non-contiguous view
     elif r < 0.42 and len(shape) == 2:
         a = np.asfortranarray(np.array(rand_values(rng, size), dtype=np.float64).reshape(shape))
+    elif r < 0.50 and len(shape) == 2:
+        a = np.array(rand_values(rng, size), dtype=np.float64).reshape(shape[::-1]).T      # transposed view
+    elif r < 0.56 and len(shape) in (1, 2) and size > 0:
+        a = np.array(rand_values(rng, size), dtype=np.float64).reshape(shape)[::-1]       # negative stride
+    elif r < 0.60 and len(shape) == 2 and size > 0:
+        a = np.array(rand_values(rng, 4 * size), dtype=np.float64).reshape(2 * shape[0], 2 * shape[1])[::2, 1::2]
     else:
         a = np.array(rand_values(rng, size), dtype=np.float64).reshape(shape)
     return a, kind
@@ -607,42 +618,136 @@ LOGNAMES = ["log.txt", "log.txt", "out.log", "log.csv", "data.csv.txt", "LOG.CSV
             "sub/log.txt", "hist.tsv"]
 
 
-def rand_state(rng, kind):
+def rand_layout(rng, ndim):
+    """memory layout of an array state: axes from slowest to fastest in memory, slicing steps, reversed axes.
+    None = plain C-contiguous np.array(...)"""
+    r = rng.random()
+    if r < 0.3:
+        return None
+    ident = list(range(ndim))
+    if r < 0.45:    # transposed view of a C array / Fortran order
+        return {"perm": ident[::-1], "steps": [1] * ndim, "negs": [False] * ndim, "how": rng.choice(["T", "F"])}
+    perm = ident[:]
+    rng.shuffle(perm)
+    if r < 0.6:     # axes permuted
+        return {"perm": perm, "steps": [1] * ndim, "negs": [False] * ndim, "how": "view"}
+    if r < 0.75:    # strided slice of a larger C array
+        return {"perm": ident, "steps": [rng.randint(1, 3) for _ in range(ndim)], "negs": [False] * ndim, "how": "view"}
+    if r < 0.87:    # reversed axes
+        return {"perm": ident, "steps": [1] * ndim, "negs": [rng.random() < 0.6 for _ in range(ndim)], "how": "view"}
+    return {"perm": perm, "steps": [rng.randint(1, 3) for _ in range(ndim)], "negs": [rng.random() < 0.4 for _ in range(ndim)],
+            "how": "view"}
+
+
+def build_state(spec):
+    """spec -> the object handed to the signal.  spec: {"py": kind, "shape", "dtype", "values" (logical C order), "layout"}"""
+    py = spec["py"]
+    if py == "float":
+        return float(spec["values"][0])
+    if py == "int":
+        return int(spec["values"][0])
+    if py == "float64":
+        return np.float64(spec["values"][0])
+    shape = tuple(spec["shape"])
+    logical = np.array(spec["values"], dtype=spec["dtype"]).reshape(shape)
+    lay = spec.get("layout")
+    if lay is None or len(shape) == 0:
+        return logical
+    if lay["how"] == "F":
+        return np.asfortranarray(logical)
+    if lay["how"] == "T":
+        base = np.zeros(shape[::-1], dtype=spec["dtype"])
+        a = base.T
+        a[...] = logical
+        return a
+    perm, steps, negs = lay["perm"], lay["steps"], lay["negs"]
+    base = np.zeros([shape[a] * steps[a] for a in perm], dtype=spec["dtype"])
+    view = base[tuple(slice(None, None, -steps[a] if negs[a] else steps[a]) for a in perm)]
+    inv = [perm.index(a) for a in range(len(shape))]
+    a = view.transpose(inv)
+    assert a.shape == shape, (a.shape, shape)
+    a[...] = logical
+    return a
+
+
+def memory_layout(a):
+    """(perm, flip) of an ndarray as np.nditer(order='K') follows it: axes by decreasing |stride| (ties keep C order),
+    an axis with a negative stride is walked backwards.  Checked against nditer itself by `nditer_order_ok`."""
+    perm = sorted(range(a.ndim), key=lambda ax: (-abs(a.strides[ax]), ax))
+    return perm, [bool(a.strides[ax] < 0) for ax in range(a.ndim)]
+
+
+def predicted_order(shape, perm, flip):
+    """index sequence for a layout (python twin of the model's `iterIndex`)"""
+    out = []
+    pshape = [shape[a] for a in perm]
+    for k in range(int(np.prod(shape))):
+        digits, rem = [], k
+        for p in range(len(perm)):
+            stride = int(np.prod(pshape[p + 1:])) if p + 1 < len(perm) else 1
+            digits.append(rem // stride)
+            rem %= stride
+        out.append(tuple((shape[a] - 1 - digits[perm.index(a)]) if flip[a] else digits[perm.index(a)] for a in range(len(shape))))
+    return out
+
+
+def nditer_order(a):
+    it = np.nditer(a, flags=["multi_index"])
+    out = []
+    while not it.finished:
+        out.append(tuple(int(i) for i in it.multi_index))
+        it.iternext()
+    return out
+
+
+def rand_spec(rng, kind, fixed=None):
+    """fixed = (shape, dtype, layout) chosen once per signal and history; the values are new in every call"""
     v = rand_values(rng, 1)[0]
     if kind == "pyfloat":
-        return v
+        return {"py": "float", "shape": [], "dtype": "float64", "values": [v], "layout": None}
     if kind == "pyint":
-        return rng.randint(-10 ** 6, 10 ** 6)
+        return {"py": "int", "shape": [], "dtype": "int64", "values": [rng.randint(-10 ** 6, 10 ** 6)], "layout": None}
     if kind == "npfloat":
-        return np.float64(v)
+        return {"py": "float64", "shape": [], "dtype": "float64", "values": [v], "layout": None}
     if kind == "arr0d":
-        return np.array(v)
-    if kind == "vec":
-        return np.array(rand_values(rng, rng.randint(2, 4)))
-    if kind == "ivec":
-        return np.array([rng.randint(-99, 99) for _ in range(rng.randint(2, 3))])
-    if kind == "mat":
-        sh = rng.choice([(2, 2), (1, 3), (3, 1), (2, 1, 2)])
-        return np.array(rand_values(rng, int(np.prod(sh)))).reshape(sh)
+        return {"py": "ndarray", "shape": [], "dtype": "float64", "values": [v], "layout": None}
     if kind == "size1":
-        return np.array([v]).reshape(rng.choice([(1,), (1, 1)]))
+        return {"py": "ndarray", "shape": list(rng.choice([(1,), (1, 1)])), "dtype": "float64", "values": [v], "layout": None}
     if kind == "size0":
-        return np.zeros((0,))
-    raise ValueError(kind)
+        return {"py": "ndarray", "shape": [0], "dtype": "float64", "values": [], "layout": None}
+    shape, dtype, layout = fixed
+    n = int(np.prod(shape))
+    vals = [rng.randint(-99, 99) for _ in range(n)] if dtype == "int64" else rand_values(rng, n)
+    return {"py": "ndarray", "shape": list(shape), "dtype": dtype, "values": vals, "layout": layout}
+
+
+def rand_fixed(rng, kind):
+    if kind == "vec":
+        shape = (rng.randint(2, 4),)
+    elif kind == "ivec":
+        shape = (rng.randint(2, 3),)
+    elif kind == "mat":
+        shape = rng.choice([(2, 2), (2, 3), (3, 2), (1, 3), (3, 1), (2, 1, 2), (2, 3, 2), (2, 2, 2), (3, 2, 1)])
+    else:
+        return None
+    return shape, ("int64" if kind == "ivec" or rng.random() < 0.1 else "float64"), rand_layout(rng, len(shape))
 
 
 def state_tokens(state, fmt):
-    """(shape|None, texts) exactly as Python formats the entries (external to the model)"""
+    """(shape|None, texts, perm, flip): texts exactly as Python formats the entries (external to the model), in the
+    C order of the LOGICAL index (texts[flat(idx)] = format(state[idx])), and the memory layout of the array"""
     if isinstance(state, np.ndarray) and state.ndim >= 1:
+        perm, flip = memory_layout(state)
         if state.size > 1:
-            return list(state.shape), [format(x.item(), fmt) for x in state.flatten(order="C")]
-        return list(state.shape), ([format(state, "")] if fmt == "" else ["?"])
-    return None, [format(state.item() if isinstance(state, np.ndarray) else state, fmt)]
+            return list(state.shape), [format(state[idx].item(), fmt) for idx in np.ndindex(state.shape)], perm, flip
+        return list(state.shape), ([format(state, "")] if fmt == "" else ["?"]), perm, flip
+    return None, [format(state.item() if isinstance(state, np.ndarray) else state, fmt)], [], []
 
 
 def gen_log(rng):
     nsig = rng.randint(1, 4)
-    kinds = [rng.choice(["pyfloat", "pyfloat", "pyint", "npfloat", "arr0d", "vec", "vec", "ivec", "mat"]) for _ in range(nsig)]
+    kinds = [rng.choice(["pyfloat", "pyfloat", "pyint", "npfloat", "arr0d", "vec", "vec", "ivec", "mat", "mat", "mat"]) for _ in range(nsig)]
+    fixed = [rand_fixed(rng, k) for k in kinds]
     tags = [rand_name(rng).replace("\t", "") for _ in range(nsig)]
     fmt = rng.choice(FORMATS)
     sep = rng.choice(SEPS)
@@ -651,9 +756,9 @@ def gen_log(rng):
     calls = []
     for it in range(ncalls):
         sts = []
-        for k in kinds:
+        for k, fx in zip(kinds, fixed):
             r = rng.random()
-            sts.append(rand_state(rng, "size1" if r < 0.012 else "size0" if r < 0.018 else k))
+            sts.append(rand_spec(rng, "size1" if r < 0.012 else "size0" if r < 0.018 else k, fx))
         calls.append(sts)
     file0 = None
     if rng.random() < 0.2:
@@ -662,6 +767,7 @@ def gen_log(rng):
 
 
 def impl_log(tmp, tags, fmt, sep, name, calls, file0):
+    """calls: lists of specs"""
     pm = _pm()
     full = os.path.join(tmp.path, name)
     sigs = [pm.Signal(t) for t in tags]
@@ -672,15 +778,56 @@ def impl_log(tmp, tags, fmt, sep, name, calls, file0):
     outs = []
     for sts in calls:
         for s, st in zip(sigs, sts):
-            s.state = st
+            s.state = build_state(st)
         r = call_impl(mod.response)
         outs.append(r[1] if r[0] == "err" else "ok")
     data = open(full, "rb").read() if os.path.exists(full) else None
     return {"calls": outs, "iter": int(mod.iter), "file": data, "sep": mod.separator}
 
 
+def split_header(line, sep):
+    """header columns; a separator inside the `[i, j]` index list of a label (`, ` / `,` / blank) does not split"""
+    cols, cur, depth, i = [], "", 0, 0
+    while i < len(line):
+        ch = line[i]
+        if depth == 0 and line.startswith(sep, i):
+            cols.append(cur)
+            cur = ""
+            i += len(sep)
+            continue
+        if ch == "[":
+            depth += 1
+        elif ch == "]" and depth > 0:
+            depth -= 1
+        cur += ch
+        i += 1
+    cols.append(cur)
+    return cols
+
+
+def expected_columns(tags, sts, fmt):
+    """what the PROPERTY demands of a row: {label: (text, value)} with label `tag` for scalars and `tag[i, j]` for the
+    entry state[i, j] of an array -- independent of the memory layout; None if labels are not unique"""
+    exp = {}
+    for t, st in zip(tags, sts):
+        a = np.asarray(st)
+        if isinstance(st, np.ndarray) and st.ndim >= 1 and st.size > 1:
+            items = [(f"{t}{list(int(i) for i in idx)}", st[idx].item()) for idx in np.ndindex(st.shape)]
+        elif isinstance(st, np.ndarray) and st.ndim >= 1:
+            items = [(t, None)]   # size <= 1 with ndim >= 1: only reachable with the empty format (text is str(arr))
+        else:
+            items = [(t, a.item())]
+        for lab, v in items:
+            if lab in exp:
+                return None
+            exp[lab] = (format(st, "") if v is None else format(v, fmt), v)
+    return exp
+
+
 def oracle_log(impl, tags, fmt, sep_arg, name, calls):
-    """header once, one row per successful call, columns parse back"""
+    """header once, one row per successful call, and in every row the column under the header label `tag[i, j]`
+    parses back to state[i, j] (columns under plain `tag` to the scalar), first column = iteration number.
+    calls: lists of the actual state objects."""
     if impl["file"] is None:
         return None if all(c != "ok" for c in impl["calls"]) else "no log file although a call succeeded"
     if all(c != "ok" for c in impl["calls"]):
@@ -691,37 +838,53 @@ def oracle_log(impl, tags, fmt, sep_arg, name, calls):
         return "log does not end with a newline"
     lines = text[:-1].split("\n")
     rows = [sts for sts, c in zip(calls, impl["calls"]) if c == "ok"]
-    toks_all = []
-    for sts in rows:
-        t = []
-        for st in sts:
-            t += state_tokens(st, fmt)[1]
-        toks_all.append(t)
-    contract = all(sep not in t and "\n" not in t for ts in toks_all for t in ts) and sep not in "0123456789" \
-        and all("\n" not in t for t in tags)
+    exps = [expected_columns(tags, sts, fmt) for sts in rows]
+    if any(e is None for e in exps):
+        return None                       # duplicate labels: no column can be attributed
+    contract = all(sep not in txt and "\n" not in txt for e in exps for txt, _ in e.values()) and sep not in "0123456789" \
+        and all("\n" not in t and "[" not in t and "]" not in t and sep not in t for t in tags) and sep not in "Iteration"
     if not contract:
         return None
     if len(lines) != 1 + len(rows):
         return f"{len(lines)} lines for {len(rows)} calls (expected one header + one row per call)"
-    if not lines[0].startswith("Iteration"):
+    head = split_header(lines[0], sep)
+    if head[0] != "Iteration":
         return "header does not start with the iteration column"
-    for i, (line, sts, want) in enumerate(zip(lines[1:], rows, toks_all)):
+    labels = head[1:]
+    if sorted(labels) != sorted(exps[0]):
+        return f"header labels {labels} do not name the entries of the logged states {sorted(exps[0])}"
+    for i, (line, exp) in enumerate(zip(lines[1:], exps)):
         cols = line.split(sep)
-        if len(cols) != 1 + len(want):
-            return f"row {i}: {len(cols)} columns, expected {1 + len(want)}"
+        if len(cols) != 1 + len(exp):
+            return f"row {i}: {len(cols)} columns, expected {1 + len(exp)}"
         if not cols[0].isdigit() or int(cols[0]) != i:
             return f"row {i}: first column {cols[0]!r} is not the iteration number"
-        vals = []
-        for st in sts:
-            vals += (np.asarray(st).flatten().tolist() if np.asarray(st).size > 1 else [np.asarray(st).item() if np.asarray(st).size == 1 else None])
-        for c, w, v in zip(cols[1:], want, vals):
+        if sorted(exp) != sorted(labels):
+            continue                      # the shape of a state changed after the header was written: no labels for this row
+        for lab, c in zip(labels, cols[1:]):
+            w, v = exp[lab]
             if c != w:
-                return f"row {i}: column {c!r} is not the value formatted with {fmt!r} ({w!r})"
+                return (f"row {i}: the column labelled {lab!r} holds {c!r}, but that entry of the state is {v!r} "
+                        f"(= {w!r} in format {fmt!r})")
             if fmt in (".10e", ".17g", "e", ".3e", "E", "+.4e") and v is not None and np.isfinite(v):
                 digits = {".10e": 10, ".17g": 16, "e": 6, "E": 6, ".3e": 3, "+.4e": 4}[fmt]
                 if abs(float(c) - v) > 0.51 * 10.0 ** (-digits) * abs(v) * 10 + 1e-300:
-                    return f"row {i}: column {c!r} does not parse back to {v!r}"
+                    return f"row {i}: column {lab!r} = {c!r} does not parse back to {v!r}"
     return None
+
+
+def layout_name(st):
+    if not isinstance(st, np.ndarray) or st.ndim == 0 or st.size <= 1:
+        return None
+    if st.ndim == 1:
+        return "1d.reversed" if st.strides[0] < 0 else ("1d.contig" if st.flags.c_contiguous else "1d.strided")
+    if st.flags.c_contiguous and not st.flags.f_contiguous:
+        return "nd.C"
+    if st.flags.f_contiguous and not st.flags.c_contiguous:
+        return "nd.F_or_T"
+    if st.flags.c_contiguous:
+        return "nd.C_and_F"
+    return "nd.neg_stride" if any(s < 0 for s in st.strides) else "nd.strided_or_permuted"
 
 
 def run_log_stream(ctx, n):
@@ -731,17 +894,31 @@ def run_log_stream(ctx, n):
         for _ in range(n):
             tags, fmt, sep, name, calls, file0 = gen_log(rng)
             tmp.clear()
+            states = [[build_state(sp) for sp in sts] for sts in calls]
+            # self-test of the layout rule against numpy: the index sequence predicted from the strides must be nditer's
+            bad_layout = False
+            for sts in states:
+                for st in sts:
+                    if isinstance(st, np.ndarray) and st.ndim >= 1 and st.size > 1:
+                        perm, flip = memory_layout(st)
+                        if predicted_order(st.shape, perm, flip) != nditer_order(st):
+                            bad_layout = True
+                        ctx.branch("log.layout." + layout_name(st))
+            if bad_layout:
+                ctx.skipped_boundary += 1
+                ctx.notes.append("layout rule (decreasing |stride|) differs from np.nditer for a generated state; case skipped")
+                continue
             r = call_impl(impl_log, tmp, tags, fmt, sep, name, calls, file0)
             if r[0] == "err":
                 ctx.disagree("log", {"fmt": fmt, "name": name}, r[2], None, "ScalarToFile could not be constructed / read back")
                 continue
             impl = r[1]
             sigcalls = []
-            for sts in calls:
+            for sts in states:
                 sc = []
                 for t, st in zip(tags, sts):
-                    shape, toks = state_tokens(st, fmt)
-                    sc.append({"tag": H(t.encode()), "shape": shape, "toks": [H(x.encode()) for x in toks]})
+                    shape, toks, perm, flip = state_tokens(st, fmt)
+                    sc.append({"tag": H(t.encode()), "shape": shape, "toks": [H(x.encode()) for x in toks], "perm": perm, "flip": flip})
                 sigcalls.append(sc)
             reqs.append({"m": "c20.log", "saveto": H(TROOT + b"/" + name.encode()), "sep": H(sep.encode()), "fmt_empty": fmt == "",
                          "file0": None if file0 is None else H(file0), "calls": sigcalls})
@@ -750,7 +927,7 @@ def run_log_stream(ctx, n):
             ctx.branch("log.fmt." + (fmt or "<empty>"))
             ctx.branch("log.csv" if ".csv" in name else "log.sep." + repr(sep))
             ctx.branch("log.calls.%d" % len(calls))
-            why = oracle_log(impl, tags, fmt, sep, name, calls)
+            why = oracle_log(impl, tags, fmt, sep, name, states)
             if why:
                 ctx.oracle_fail(why, witness_log(tags, fmt, sep, name, calls, file0))
     res = ctx.model(reqs)
@@ -769,27 +946,33 @@ def run_log_stream(ctx, n):
                           {"calls": mo["calls"], "iter": mo["iter"], "sep": mo["sep"], "file": mo["file"]},
                           key=("log", json.dumps(req, sort_keys=True)), nontrivial=impl["iter"] > 0)
     if metas:
-        ctx.sample({"stream": "log", "fmt": metas[0][1], "sep": metas[0][2], "name": metas[0][3],
-                    "real_file": (impls[0]["file"] or b"").decode("utf8", "replace")[:300]})
+        i = next((i for i, mt in enumerate(metas) if any(sp.get("layout") for sts in mt[4] for sp in sts)), 0)
+        ctx.sample({"stream": "log", "fmt": metas[i][1], "sep": metas[i][2], "name": metas[i][3],
+                    "layouts": [sp.get("layout") for sp in metas[i][4][0]],
+                    "real_file": (impls[i]["file"] or b"").decode("utf8", "replace")[:300]})
+
+
+def layout_selftest(ctx):
+    """the model's `iterIndex` (driver op c20.iterorder) against np.nditer itself, over all layouts of small arrays"""
+    rng = ctx.rng
+    reqs, wants = [], []
+    for shape in [(2, 3), (3, 2), (2, 2), (1, 3), (3, 1), (2, 3, 2), (2, 1, 2), (4,), (2, 2, 2)]:
+        for _ in range(6 if ctx.quick else 25):
+            lay = rand_layout(rng, len(shape))
+            st = build_state({"py": "ndarray", "shape": list(shape), "dtype": "float64",
+                              "values": list(range(int(np.prod(shape)))), "layout": lay})
+            perm, flip = memory_layout(st)
+            reqs.append({"m": "c20.iterorder", "shape": list(shape), "perm": perm, "flip": flip})
+            wants.append([list(t) for t in nditer_order(st)])
+    res = ctx.model(reqs)
+    for rq, w, m in zip(reqs, wants, res):
+        ctx.branch("log.iterorder")
+        ctx.compare_exact("log.iterorder", rq, w, m.get("ok"), key=("iterorder", json.dumps(rq)))
 
 
 def witness_log(tags, fmt, sep, name, calls, file0):
-    def enc(st):
-        a = np.asarray(st)
-        return {"py": type(st).__name__, "shape": list(a.shape), "dtype": str(a.dtype), "values": a.flatten().tolist()}
     return {"op": "log", "tags": tags, "fmt": fmt, "sep": sep, "name": name, "file0": None if file0 is None else H(file0),
-            "calls": [[enc(st) for st in sts] for sts in calls]}
-
-
-def dec_state(e):
-    a = np.array(e["values"], dtype=e["dtype"]).reshape(e["shape"])
-    if e["py"] == "float":
-        return float(a)
-    if e["py"] == "int":
-        return int(a)
-    if e["py"] == "float64":
-        return np.float64(a)
-    return a
+            "calls": calls}
 
 
 # ------------------------------------------------------------------------------------------------
@@ -875,7 +1058,8 @@ def correspondence(ctx):
     run_names_stream(ctx, 60 if q else 600)
     run_vti_stream(ctx, 160 if q else 2500)
     run_wvti_stream(ctx, 50 if q else 700)
-    run_log_stream(ctx, 120 if q else 2000)
+    layout_selftest(ctx)
+    run_log_stream(ctx, 140 if q else 2000)
     if not q:
         selftest(ctx)
 
@@ -933,7 +1117,7 @@ def search(ctx, disagreements):
                 r = call_impl(impl_log, tmp, tags, fmt, sep, name, calls, file0)
                 if r[0] == "err":
                     continue
-                why = oracle_log(r[1], tags, fmt, sep, name, calls)
+                why = oracle_log(r[1], tags, fmt, sep, name, [[build_state(sp) for sp in sts] for sts in calls])
                 if why:
                     found.append({"what": why, "witness": witness_log(tags, fmt, sep, name, calls, file0)})
                 if len(found) >= 5:
@@ -964,11 +1148,12 @@ def replay(ctx, data):
                     why = why or oracle_vti(raw, dom[0], dom[1], dom[2], dom[3], w["scale"], (0.0, 0.0, 0.0),
                                             list(dict(zip(w["tags"], states)).items()))
     elif op == "log":
-        calls = [[dec_state(e) for e in sts] for sts in w["calls"]]
+        calls = w["calls"]
         file0 = None if w.get("file0") is None else U(w["file0"])
         with TmpDir() as tmp:
             r = call_impl(impl_log, tmp, w["tags"], w["fmt"], w["sep"], w["name"], calls, file0)
-        why = r[2] if r[0] == "err" else oracle_log(r[1], w["tags"], w["fmt"], w["sep"], w["name"], calls)
+        why = r[2] if r[0] == "err" else oracle_log(r[1], w["tags"], w["fmt"], w["sep"], w["name"],
+                                                    [[build_state(sp) for sp in sts] for sts in calls])
     elif op == "b64":
         d = U(w["data"])
         why = None if base64.b64decode(base64.b64encode(d), validate=True) == d else "base64 round trip fails"
